@@ -44,6 +44,24 @@ def gen_tie_cases(ctx, scale):
                         if present:
                             dst.append((b0[idx] // 100) * 100 + 99 - (b0[idx] % 100) % 50)
                         cases.append('xi %s %s %d %s %s' % (c, kind, idx, fmt(dst), fmt(b0)))
+    # maps: MapKeyValueTraits mechanisms for every (key category, value category) x operation x failure index
+    for kc in CATS:
+        for vc in CATS:
+            for op in ('reloc', 'replace', 'reprel'):
+                for k in (-1, 0, 1, 2, 3, 4, 5):
+                    cases.append('pm %s %s %s %d %d %d %d %d' % (kc, vc, op, k, r.range(1, 90), r.range(100, 190), r.range(200, 290), r.range(300, 390)))
+    # maps: Extract + Insert(ExtractedPair&&) at every position of a bucket of 1..3 pairs
+    for (kc, vc) in [(c, c) for c in CATS] + [('CPY', 'NTM'), ('THM', 'NTM'), ('SMH', 'NTM')]:
+        for kind in ('func', 'copy', 'alloc'):
+            for n in range(1, 4):
+                for idx in range(n):
+                    b0 = [((8 * j) * 100 + r.range(1, 49), 7000 + r.range(0, 99)) for j in range(n)]
+                    for present in (0, 1):
+                        dst = [((8 * j + 1) * 100 + r.range(1, 49), 8000 + r.range(0, 99)) for j in range(r.range(0, 2))]
+                        if present:
+                            dst.append(((b0[idx][0] // 100) * 100 + 77, 8500))
+                        fp = lambda l: ','.join('%d:%d' % p for p in l) if l else '-'
+                        cases.append('px %s %s %s %d %s %s' % (kc, vc, kind, idx, fp(dst), fp(b0)))
     # hash source merges: random bucket layouts (8 buckets, key = bucket + 8*j), destinations sharing some keys
     def layout(maxper, total):
         bks = []; left = total
@@ -84,25 +102,57 @@ def gen_tie_cases(ctx, scale):
         c = CATS[i % 4]
         kind = ('func', 'copy', 'alloc')[(i // 4) % 3]
         dk = ('h', 't', 'm')[(i // 12) % 3]
-        keys = sorted(set(r.range(0, 30) for _ in range(r.range(0, 7))))
+        deep = (i % 5 == 4)            # multi-leaf trees (height 2-3: more than 32 items per tree), coarse comparison
+        kr, nmax = (400, 80) if deep else (30, 7)
+        keys = sorted(set(r.range(0, kr) for _ in range(r.range(40 if deep else 0, nmax))))
         src = [k * 100 + r.range(1, 49) for k in keys]
         if dk == 'm' and src and r.chance(1, 2):
             src.append((src[0] // 100) * 100 + 49)
-        dkeys = sorted(set(r.range(0, 30) for _ in range(r.range(0, 7))))
+        dkeys = sorted(set(r.range(0, kr) for _ in range(r.range(40 if deep else 0, nmax))))
         dst = [k * 100 + r.range(50, 99) for k in dkeys]
         cases.append('tm %s %s %s %s %s' % (c, kind, dk, fmt(dst), fmt(src)))
     for i in range(40 * scale):
         c = CATS[i % 4]
         kind = ('copy', 'alloc')[(i // 4) % 2]
         multi = (i // 8) % 2
+        deep = (i % 5 == 4)
         ns = r.choice([0, 1, 1, 2, 3, 4, 6, 8]); nd = r.choice([0, 1, 2, 4, 8, 12])
-        keys = sorted(set(r.range(0, 40) for _ in range(ns)))
+        if deep:
+            ns = r.range(35, 80); nd = r.range(35, 80)
+        keys = sorted(set(r.range(0, 400 if deep else 40) for _ in range(ns)))
         src = [k * 100 + r.range(1, 49) for k in keys]
-        dkeys = sorted(set(r.range(0, 40) for _ in range(nd)))
+        dkeys = sorted(set(r.range(0, 400 if deep else 40) for _ in range(nd)))
         dst = [k * 100 + r.range(50, 99) for k in dkeys]
         if multi and src and r.chance(1, 2):
             src.append((src[-1] // 100) * 100 + 49)
         cases.append('lm %s %s %d %s %s' % (c, kind, multi, fmt(dst), fmt(src)))
+    # TreeSet::MergeTo(TreeSet&) with EQUAL managers: swap, pvMergeFast in both directions, touching key ranges (the
+    # ordering tests), interleaved ranges (loops); sizes up to a few hundred items so that the trees have different heights
+    for i in range(48 * scale):
+        c = CATS[i % 4]
+        kind = ('alloc', 'copy')[(i // 4) % 2]
+        multi = (i // 8) % 2
+        shape = ('src<dst', 'dst<src', 'touch-src-dst', 'touch-dst-src', 'interleaved', 'dst-empty')[(i // 16) % 6 if i >= 16 else i % 6]
+        big = r.chance(1, 3)
+        ns = r.range(1, 400 if big else 12); nd = r.range(1, 400 if big and r.chance(1, 2) else 12)
+        if shape == 'interleaved':
+            ns = min(ns, 10); nd = min(nd, 10)
+        lo = [k * 100 + r.range(1, 49) for k in range(0, 2 * ns, 2)]
+        hi_base = 2 * ns + 10
+        if shape in ('touch-src-dst', 'touch-dst-src'):
+            hi_base = 2 * ns - 2                      # the largest low key == the smallest high key
+        hi = [(hi_base + 2 * k) * 100 + r.range(50, 99) for k in range(nd)]
+        if shape in ('src<dst', 'touch-src-dst'):
+            src, dst = lo, hi
+        elif shape in ('dst<src', 'touch-dst-src'):
+            src, dst = [x - x % 100 + r.range(1, 49) for x in hi], [x - x % 100 + r.range(50, 99) for x in lo]
+        elif shape == 'interleaved':
+            src = lo; dst = [(2 * k + 1) * 100 + r.range(50, 99) for k in range(nd)] + ([lo[0] - lo[0] % 100 + 99] if r.chance(1, 2) else [])
+        else:
+            src, dst = lo, []
+        if multi and src and r.chance(1, 2):
+            src = src + [src[-1] - src[-1] % 100 + 49]
+        cases.append('fm %s %s %d %s %s' % (c, kind, multi, fmt(dst), fmt(src)))
     return cases
 
 
@@ -119,7 +169,15 @@ def agree(case, impl, model):
     if impl == model:
         return True
     w = case.split()
-    if len(w) > 3 and w[0] in ('hm', 'tm', 'lm', 'xi') and (w[2] == 'alloc' or (w[2] == 'func' and w[3] in ('t', 'm') and w[0] != 'xi')):
+    if w[0] in ('tm', 'lm', 'fm') and w[1] == 'CPY' and w[2] == 'copy':
+        # copy-only items in multi-node trees: momo swallows an exception thrown while REBALANCING the source after an
+        # extraction (an optimisation that may be skipped), so an injected copy failure can leave the whole merge
+        # successful -> every observed behaviour must be one of the model's behaviours, same final behaviour
+        bi, bm = behaviours(impl), behaviours(model)
+        return bool(bi) and bool(bm) and bi[-1] == bm[-1] and set(bi) <= set(bm)
+    if w[0] == 'px' and w[3] == 'alloc':
+        w = [w[0]] + w[2:]
+    if len(w) > 3 and w[0] in ('hm', 'tm', 'lm', 'fm', 'xi', 'px') and (w[2] == 'alloc' or (w[2] == 'func' and w[3] in ('t', 'm') and w[0] != 'xi')):
         bi, bm = behaviours(impl), behaviours(model)
         if not bi or not bm or bi[-1] != bm[-1]:
             return False
@@ -150,11 +208,11 @@ def tie_oracle(ctx, case, out):
     if 'LEAK' in out or 'UNUSABLE' in out or 'BAD-' in out or 'HARNESS-EXCEPTION' in out or 'TOO-MANY' in out or out.strip() in ('?', ''):
         bad.append('leak / unusable container / harness problem: ' + out[:200])
         return bad
-    if w[0] in ('hm', 'tm', 'lm', 'xi'):
+    if w[0] in ('hm', 'tm', 'lm', 'fm', 'xi'):
         cat = w[1]
         if w[0] == 'hm':
             dst0 = parse_items(w[4]); src0 = [x for b in w[5:] for x in parse_items(b)]; multi = (w[3] == 'm')
-        elif w[0] in ('tm', 'lm'):
+        elif w[0] in ('tm', 'lm', 'fm'):
             dst0 = parse_items(w[4]); src0 = parse_items(w[5]); multi = (w[3] in ('m', '1'))
         else:
             dst0 = parse_items(w[4]); src0 = parse_items(w[5]); multi = False
@@ -189,6 +247,36 @@ def tie_oracle(ctx, case, out):
                     if multi or x // 100 not in set(d // 100 for d in dst):
                         bad.append('completed merge left item %d in the source although the destination accepts it' % x)
         if nb > 1:
+            ctx.nontrivial.add(case)
+    elif w[0] == 'px':
+        pp = lambda t: [] if t in ('-', 'none') else [tuple(int(x) for x in q.split(':')) for q in t.split(',')]
+        both_copy_only = (w[1] == 'CPY' and w[2] == 'CPY')
+        init = ms(pp(w[5]) + pp(w[6]))
+        bs = behaviours(out)
+        for b in bs:
+            m = re.search(r'src=(\S+) dst=(\S+) holder=(\S+)', b)
+            if not m:
+                bad.append('unparsable behaviour ' + b[:120]); continue
+            allp = pp(m.group(1)) + pp(m.group(2)) + pp(m.group(3))
+            if ms(allp) != init:
+                lenient = (both_copy_only and not b.startswith('S') and ms(k for k, _ in allp) == ms(k for k, _ in init.elements())
+                           and all(v in set(v0 for _, v0 in init.elements()) for _, v in allp))
+                if lenient:
+                    d = ctx.coverage.setdefault('documented_limitation_hits_tie', {'key': DOC_KEY, 'behaviours': 0, 'first_case': case})
+                    d['behaviours'] += 1
+                else:
+                    bad.append('key/value pairs not conserved: %s != initial %s' % (sorted(allp), sorted(init.elements())))
+            dk = [k // 100 for k, _ in pp(m.group(2))]
+            if len(set(dk)) != len(dk):
+                bad.append('duplicate key in destination map')
+            if w[1] in MOVABLE and w[2] in MOVABLE and re.search(r'(^|[ ;])C(A)? \d', b.split('holder=')[1]):
+                bad.append('movable key/value copied during extract / re-insert')
+        if len(bs) > 1:
+            ctx.nontrivial.add(case)
+    elif w[0] == 'pm':
+        if w[1] in MOVABLE and w[2] in MOVABLE and re.search(r'(^|[ ;])C(A)? \d', out):
+            bad.append('pair mechanism copied movable objects: ' + out)
+        if w[4] != '-1':
             ctx.nontrivial.add(case)
     elif w[0] == 'sh':
         n, idx, cnt = int(w[3]), int(w[4]), int(w[5])
